@@ -167,6 +167,20 @@ pub enum Color {
     Blue,
 }
 
+/// a "data-less" enum in the tracer's eyes although one variant carries a (unit) payload: with
+/// `enums_without_data_as_strings` the tracer stores it as strings and the string builders refuse `B(())`
+#[derive(Serialize, Deserialize, Debug, PartialEq, Clone)]
+pub enum UnitPayload {
+    A,
+    B(()),
+}
+
+#[derive(Serialize, Deserialize, Debug, PartialEq, Clone)]
+pub struct HasUnitPayload {
+    pub e: UnitPayload,
+    pub n: i32,
+}
+
 #[derive(Serialize, Deserialize, Debug, PartialEq, Clone)]
 pub struct HasColor {
     pub c: Color,
@@ -606,7 +620,7 @@ macro_rules! plain {
 
 plain!(
     Scalars, Sizes, Nested, TupleStruct, Wrap<Newtype>, NewtypeOfStruct, Wrap<UnitS>, WithUnit, Empty, HasEmpty, Wide, Boxed,
-    Wrap<AllKinds>, Wrap<DataOnly>, HasColor, OptColor, EnumVec, EnumInStructInVec, Wrap<EnumNested>, Wrap<Payloads>,
+    Wrap<AllKinds>, Wrap<DataOnly>, HasColor, HasUnitPayload, OptColor, EnumVec, EnumInStructInVec, Wrap<EnumNested>, Wrap<Payloads>,
     Wrap<ManyVariants>, OptEnum, ResultField, EnumWithUnitInVec, Opts, OptStruct, OptVec, VecOpt, VecVec, VecStruct,
     SeqCollections, HashSetField, Deep, Arrays, Tuples, RootTuple, TupleInVec, HMap, BMapStruct, BMapIntKey, BMapVecValues,
     MapInVec, MapEnumValues, MapEnumKeys, MapOfMaps, Strs, Bytes, BytesNested, Chars, Renamed, Camel, Scream, Wrap<RenamedVariants>,
@@ -654,6 +668,7 @@ macro_rules! zoo_types {
             (Wrap<AllKinds>, "Wrap<AllKinds>", "enum", ["nulls"]),
             (Wrap<DataOnly>, "Wrap<DataOnly>", "enum", []),
             (HasColor, "HasColor", "enum-dataless", ["dataless"]),
+            (HasUnitPayload, "HasUnitPayload", "enum-unit-payload", ["dataless", "nulls"]),
             (OptColor, "OptColor", "option-enum-dataless", ["dataless"]),
             (EnumVec, "EnumVec", "enum-in-vec", []),
             (EnumInStructInVec, "EnumInStructInVec", "enum-in-struct-in-vec", []),
